@@ -17,9 +17,13 @@ import (
 
 func init() {
 	register("C04", func(tier, replay string) int { return checkConv("C04", "nsx", tier, replay) })
+	register("C03", func(tier, replay string) int { return checkConv("C03", "panos", tier, replay) })
 }
 
 var convRules = map[string]string{
+	"panos": "1-2 targeted vsys with 0-7 rules over address lists, address-groups, any, services, application-default, optional unknown attributes; " +
+		"device = target after 0-4 edits (rule missing / extra / reordered / names shifted so that they clash, group renamed / few or many members changed / names swapped / duplicated, " +
+		"address or service with equal name but other value, rule attribute or member list changed, left-over objects, unknown attribute on an address) plus a foreign vsys and <shared> objects",
 	"nsx": "1-3 Netspoc policies with 0-6 rules (shared sequence numbers, ALLOW/DROP, IN/OUT, logged, tag, literal addresses, ANY, Netspoc groups, an external group, Netspoc services), " +
 		"device = target after 0-4 edits (group renamed / few or many addresses changed / duplicated / merged / identical unused copy, rule missing / extra / attribute changed / ids shifted so that they clash, " +
 		"service changed in place, left-over group or service, policy missing or extra) plus foreign policies, groups and services without the Netspoc prefix",
